@@ -91,6 +91,13 @@ def execute(ctx, case):
     cm3 = ConfusionMatrix(matrix=df, classes=perm)
     cm3b = ConfusionMatrix(matrix=df)
     cm4 = ConfusionMatrix(matrix=ref.tolist(), classes=order)
+    # dict of dicts without classes=: the outer keys define the class order, each row may list its keys in any order
+    d_mixed = {}
+    for i, r in enumerate(order):
+        cols = [order[(k + i + int(case["perm"][0])) % K] for k in range(K)]
+        d_mixed[r] = {c_: ref[i, order.index(c_)] for c_ in cols}
+    cm5 = ConfusionMatrix(matrix=d_mixed)
+    C(np.allclose(cm5.matrix, ref) and list(cm5.classes) == order, "dict-of-dicts input whose rows list their keys in another order gives a different matrix", "cmx-dict-row-order")
     ri = [order.index(c) for c in df.index]
     C(np.allclose(cm2.matrix, refp) and list(cm2.classes) == perm, "dict-of-dicts input with a class permutation gives a different matrix", "cmx-dict")
     C(np.allclose(cm3.matrix, refp) and list(cm3.classes) == perm, "DataFrame input (rows/columns permuted) with a class permutation gives a different matrix", "cmx-dataframe")
@@ -117,6 +124,11 @@ def execute(ctx, case):
         # with float weights the cells differ by an ulp under reordering; sqrt(p(1-p)/n) turns that into ~1e-8 near p in {0,1}
         atol = 2e-7 if (is_ci and M.dtype.kind == "f") else 1e-12
         C(np.allclose(np.take(v, pi, axis=ax), vp, rtol=1e-12, atol=atol, equal_nan=True), "per-class metric not equivariant under class permutation", "cmx-perm", metric=nm, M=M)
+    if len(lead) >= 1 and lead[0] >= 1:  # indexing a vectorised matrix commutes with per-class metrics
+        i0 = int(case["order"][0]) % lead[0]
+        sub = c[i0]
+        C(list(sub.classes) == order and np.array_equal(sub.matrix, M[i0]) and np.array_equal(np.asarray(sub.tpr()), np.asarray(c.tpr())[i0], equal_nan=True)
+          and np.array_equal(np.asarray(sub.ppv()), np.asarray(c.ppv())[i0], equal_nan=True), "indexing a vectorised matrix does not commute with per-class metrics", "cmx-getitem")
     tot = M.sum(axis=-1).sum(axis=-1)
     tr = np.trace(M, axis1=-2, axis2=-1)
     with np.errstate(all="ignore"):
